@@ -275,6 +275,73 @@ DESCS = [
 ]
 
 
+def rename_type(D, old, new):
+    """Rename a type everywhere (definition, references, union members, interfaces, roots)."""
+    if old == new or gs.desc_type(D, new) is not None or gs.desc_type(D, old) is None:
+        return False
+
+    def ren(t):
+        return ("named", new if t[1] == old else t[1]) if t[0] == "named" else (t[0], ren(t[1]))
+
+    def slots():
+        for t in D["types"]:
+            for f in t.get("fields") or []:
+                yield f
+                for a in f.get("args") or []:
+                    yield a
+        for d in D["directives"]:
+            for a in d.get("args") or []:
+                yield a
+    for x in slots():
+        x["type"] = ren(x["type"])
+    for t in D["types"]:
+        if t["name"] == old:
+            t["name"] = new
+        if t.get("members"):
+            t["members"] = [new if m == old else m for m in t["members"]]
+        if t.get("interfaces"):
+            t["interfaces"] = [new if m == old else m for m in t["interfaces"]]
+    for k in ("query", "mutation", "subscription"):
+        if D.get(k) == old:
+            D[k] = new
+    return True
+
+
+CASE_VARIANTS = {"query": ["query", "QUERY", "QuerY"], "mutation": ["mutation", "MUTATION", "mutatioN"],
+                 "subscription": ["subscription", "SUBSCRIPTION", "subScription"]}
+CONVENTIONAL = {"query": "Query", "mutation": "Mutation", "subscription": "Subscription"}
+SCALAR_LOOKALIKES = ["string", "INT", "Id", "float", "boolean", "STRING", "iD"]
+DIRECTIVE_LOOKALIKES = ["Deprecated", "SKIP", "Include", "DEPRECATED", "Skip"]
+
+
+def case_variants(rng, D):
+    """Names that differ from the conventional / specified ones ONLY by case (GraphQL names are case-sensitive):
+    root types `query` / `MUTATION` / `subscription` (alone or next to a plain type with the conventional name),
+    custom scalars `string` / `INT`, custom directives `Deprecated` / `SKIP`."""
+    plain = {"name": "x0", "type": gs.named("Int"), "args": [], "deprecated": None, "desc": None}
+    forced = False
+    for op in ("query", "mutation", "subscription"):
+        cur = D.get(op)
+        if cur is None or rng.random() < 0.4:
+            continue
+        if rename_type(D, cur, rng.choice(CASE_VARIANTS[op])):
+            forced = True
+    if forced:
+        for op in ("query", "mutation", "subscription"):
+            # a plain (non-root) type carrying the conventional name, next to the case variant
+            if D.get(op) is not None and D[op] != CONVENTIONAL[op] and gs.desc_type(D, CONVENTIONAL[op]) is None and rng.random() < 0.5:
+                D["types"].append({"kind": "object", "name": CONVENTIONAL[op], "interfaces": [], "desc": None, "fields": [copy.deepcopy(plain)]})
+    for t in [t for t in D["types"] if t["kind"] == "scalar"]:
+        if rng.random() < 0.6:
+            rename_type(D, t["name"], rng.choice(SCALAR_LOOKALIKES))
+    for d in D["directives"]:
+        if rng.random() < 0.5:
+            nm = rng.choice(DIRECTIVE_LOOKALIKES)
+            if nm not in [x["name"] for x in D["directives"]]:
+                d["name"] = nm
+    return D
+
+
 def decorate(rng, D, rich=True):
     """In-place variations of the declared content: root names, subscription, richer descriptions."""
     D = copy.deepcopy(D)
@@ -294,6 +361,8 @@ def decorate(rng, D, rich=True):
         o = rng.choice([t for t in objs if t["name"] not in ("Query", "RootQ")] or objs)
         if o["name"] not in (D["query"], D.get("subscription")):
             D["mutation"] = o["name"]
+    if rng.random() < 0.2:
+        case_variants(rng, D)
     if rich:
         def walk():
             for t in D["types"]:
@@ -420,6 +489,13 @@ def _items_of(rng, D, p_ext=0.45, s8_safe=True):
         if in_ext:
             items.append({"k": "schema_ext", "ops": in_ext, "dirs": []})
     return items
+
+
+def items_of_content(D):
+    """Definitions declaring exactly D, one definition per type, no extension, no directive applications
+    (deterministic: the by-name content of an already built schema)."""
+    import random
+    return items_of(random.Random(0), D, p_ext=0.0, p_dirs=0.0)
 
 
 def permute(rng, items):
